@@ -22,7 +22,7 @@
    The two "stop programs" are parameters of the model ([ce] for connectionError, [pe] for
    protocolError): lists of stop statements, each a set (inbound / outbound) and whether it
    stands under the CAS guard.  The programs of the real functions are read off the source on
-   every run (Gen/GenCtxSites.stop_sites) and proved equal to [ce_prog] / [pe_prog] below
+   every run (Gen/GenCtxFlow.stop_sites) and proved equal to [ce_prog] / [pe_prog] below
    (Proofs/ConnFailP.v).  One label = one atomic action of one goroutine; any number of calls.
    No proofs in this file. *)
 From Coq Require Import ZArith List Bool.
